@@ -166,7 +166,7 @@ func TestC10Sequences(t *testing.T) {
 		}
 		nd := rapid.IntRange(0, 3).Draw(rt, "ndrift")
 		for i := 0; i < nd; i++ {
-			op := rapid.SampledFrom([]string{"tpDelete", "tpEdit", "tpRelabel", "restart"}).Draw(rt, "driftop")
+			op := rapid.SampledFrom([]string{"tpDelete", "tpEdit", "tpRelabel", "restart", "tpDeletePhase"}).Draw(rt, "driftop")
 			// drift lands right before a user step (i.e. after the preceding quiescence)
 			var slots []int
 			for si, s := range script.Steps {
